@@ -54,10 +54,29 @@ def schema_specs(tier):
     return l1
 
 
-def build(spec, bool_flip=0):
+def build(spec, bool_flip=0, bottom_up=False):
     import cincoconfig as cc
+    if bottom_up:
+        return _bottom_up(spec, [bool_flip])
     s = cc.Schema()
     _fill(s, spec, [bool_flip])
+    return s
+
+
+def _bottom_up(spec, ctr):
+    """sub-schemas are completed (and their fields' reference paths read) before they are mounted"""
+    import cincoconfig as cc
+    s = cc.Schema()
+    for key, kind in spec:
+        if isinstance(kind, list):
+            sub = _bottom_up(kind, ctr)
+            for _, _, f in cc.get_all_fields(sub):
+                cc.item_ref_path(f)            # read while still unmounted
+            setattr(s, key, sub)
+        else:
+            _fill(s, [[key, kind]], ctr)
+    for _, _, f in cc.get_all_fields(s):
+        cc.item_ref_path(f)
     return s
 
 
@@ -115,18 +134,20 @@ def jobs(tier):
 def run_job(job, ctx):
     single = job.get("single")
     if single:
-        check_schema(ctx, single["spec"], single.get("only"))
+        check_schema(ctx, single["spec"], single.get("only"), bottom_up=single.get("bottom_up", False))
         return
     for spec in job["specs"]:
         check_schema(ctx, spec, None)
+        if any(isinstance(k, list) for _, k in spec):
+            check_schema(ctx, spec, None, bottom_up=True)
     ctx.sample({"schema": job["specs"][-1]})
 
 
-def check_schema(ctx, spec, only):
+def check_schema(ctx, spec, only, bottom_up=False):
     import cincoconfig as cc
     ref_paths = paths(spec)
-    fpb = "C16|"
-    case0 = {"spec": spec, "job": "schema"}
+    fpb = "C16|bottom-up|" if bottom_up else "C16|"
+    case0 = {"spec": spec, "job": "schema", "bottom_up": bottom_up}
 
     def bad(what, msg, only_=None):
         c = dict(case0)
@@ -134,7 +155,7 @@ def check_schema(ctx, spec, only):
             c["only"] = only_
         ctx.violation(fpb + what, "schema %s: %s" % (spec, msg), c, size=len(str(spec)))
 
-    schema = build(spec)
+    schema = build(spec, bottom_up=bottom_up)
     ctx.states += 1
     # ---- naming routes --------------------------------------------------------------------
     try:
